@@ -58,6 +58,10 @@ func run(t *testing.T, tape *simrt.Tape) *hx.Outcome {
 		fusemanager.VerifLiveMounts = liveAll
 		genN := 0
 		quiet := false
+		genCfg := map[string]string{} // filesystem instance -> the configuration it was built from
+		cfgN, lastOKCfg := 0, ""      // configuration counter; configuration of the last Init that reported success
+		initEpoch := 0                // bumped when an Init starts and when it returns
+		failedSince := map[string]bool{} // configurations of Inits that failed after the last successful one
 		fusemanager.VerifNewFileSystem = func(ctx context.Context, root string, config *service.Config) (snapshot.FileSystem, error) {
 			if t := simrt.Cur(); !quiet && ctorFailDen > 0 && t != nil && s.Tape.Draw("ctor:"+t.Label, ctorFailDen) == 0 {
 				s.Stat("fault.newfilesystem", 1)
@@ -68,6 +72,7 @@ func run(t *testing.T, tape *simrt.Tape) *hx.Outcome {
 			g := common.NewRecFS(s, fmt.Sprintf("gen%d", genN), failDen)
 			g.Quiet = quiet
 			gens = append(gens, g)
+			genCfg[g.Name] = config.KubeconfigPath
 			return g, nil
 		}
 		newManager := func() *fusemanager.Server {
@@ -83,7 +88,9 @@ func run(t *testing.T, tape *simrt.Tape) *hx.Outcome {
 			return
 		}
 		cfgJSON := func(n int) []byte {
-			b, _ := json.Marshal(&fusemanager.Config{MetadataStore: "memory", DefaultImageServiceAddress: fmt.Sprintf("cfg%d", n)})
+			c := &fusemanager.Config{MetadataStore: "memory", DefaultImageServiceAddress: fmt.Sprintf("cfg%d", n)}
+			c.Config.KubeconfigPath = fmt.Sprintf("cfg%d", n) // reaches the filesystem constructor
+			b, _ := json.Marshal(c)
 			return b
 		}
 		mpOf := func(i int) string { return filepath.Join(base, "snapshots", fmt.Sprint(i), "fs") }
@@ -113,10 +120,24 @@ func run(t *testing.T, tape *simrt.Tape) *hx.Outcome {
 				lastInitRecords[k] = true
 			}
 			inits++
-			_, err := fm.Init(ctx, &pb.InitRequest{Root: base, Config: cfgJSON(inits)})
+			// a snapshotter whose Init failed may retry with the very same configuration
+			if !(lastInitErr && cfgN > 0 && s.Tape.Draw("initcfg", 2) == 0) {
+				cfgN++
+			} else {
+				s.Stat("init.retry-same-config", 1)
+			}
+			myCfg := cfgN
+			initEpoch++
+			_, err := fm.Init(ctx, &pb.InitRequest{Root: base, Config: cfgJSON(myCfg)})
+			initEpoch++
 			lastInitErr = err != nil
 			if err == nil {
 				ready = true
+				lastOKCfg = fmt.Sprintf("cfg%d", myCfg)
+				failedSince = map[string]bool{}
+			} else {
+				// an initialisation that reported an error may or may not have taken effect
+				failedSince[fmt.Sprintf("cfg%d", myCfg)] = true
 			}
 			s.Event("%s Init #%d -> ok=%v", who, inits, err == nil)
 			return err == nil
@@ -190,8 +211,21 @@ func run(t *testing.T, tape *simrt.Tape) *hx.Outcome {
 							for _, g := range gens {
 								i0[g.Name] = len(g.Events)
 							}
+							ep0, okCfg0 := initEpoch, lastOKCfg
 							_, err := fm.Mount(ctx, &pb.MountRequest{Mountpoint: mp, Labels: l})
 							mounts++
+							if err == nil && !already && ep0 == initEpoch && ep0%2 == 0 && okCfg0 != "" {
+								// no initialisation overlapped this request: the mount belongs to the configuration of
+								// the last Init that reported success
+								for _, g := range gens {
+									for _, e := range g.Events[i0[g.Name]:] {
+										if e.Op == "mount" && e.OK && e.MP == mp && e.Task == t.Label && genCfg[g.Name] != okCfg0 && !failedSince[genCfg[g.Name]] {
+											s.Fail("new-mount-on-old-config", "Mount(%d) was served by %s, built from configuration %s, although the last initialisation that reported success carried %s", idx, g.Name, genCfg[g.Name], okCfg0)
+											return
+										}
+									}
+								}
+							}
 							s.Event("%s Mount %d -> ok=%v", t.Label, idx, err == nil)
 							if err == nil && !already {
 								// a new mount uses the filesystem created from the newest configuration
@@ -277,6 +311,7 @@ func run(t *testing.T, tape *simrt.Tape) *hx.Outcome {
 			if s.Tape.Draw("cfg", 3) == 0 {
 				recs, _ := fm.VerifRecords()
 				fm.VerifDie()
+				lastOKCfg, failedSince = "", map[string]bool{} // a new process: nothing is initialised
 				gens = nil // its FUSE mounts die with it
 				ready = false
 				restarts++
